@@ -431,8 +431,10 @@ func (ms *Modules) Process() []error {
 	// rather we can just walk all modules and submodules *after* entries
 	// are resolved. This means we do not need to concern ourselves that
 	// an entry does not exist.
-	dvP := map[string]bool{} // cache the modules we've handled since we have both modname and modname@revision-date
 	for _, devmods := range []map[string]*Module{ms.Modules, ms.SubModules} {
+		// cache the modules we've handled since we have both modname and
+		// modname@revision-date; a submodule may bear the name of a module.
+		dvP := map[string]bool{}
 		for _, m := range sortedModules(devmods) {
 			e := ToEntry(m)
 			if !dvP[e.Name] {
